@@ -1,16 +1,87 @@
-"""C01 — bounded stand-in (NOT a proof): the elementwise program family of checks/_programs.py is executed on the real engine
-(API.run of the working tree, text->AST prologue removed mechanically) over fixed small tables and every result is
-compared, as a keyed set of datapoints, with the reference semantics of spec/vtlref.py."""
+"""C01 — element-wise operators compute the VTL-defined result for every datapoint.
+
+Two tiers, one evidence file:
+  * PROOF tier (checks/_c01_main.py, run in its own process next to the bounded tier): contracts on the scalar SQL templates
+    the real transpiler uses - every in-scope entry of the real operator registry (token x arity x typed override), the
+    template helpers (_between_expr, _bool_to_str, _scalar_if_sql, _build_case_when_sql) and the scalar paths of
+    visit_BinOp / visit_UnaryOp / visit_ParamOp / visit_MulOp_between - evaluated over nullable symbolic operands and
+    discharged by z3 / cvc5 for ALL operand values against the VTL specification functions (value, NULL, runtime error);
+    plus row-level contracts on the SELECT the real pipeline emits for small dataset programs (identifier pass-through,
+    measure = template of that row's operands, INNER JOIN exactly on the common identifiers, dataset if-then-else keeps a
+    datapoint iff the selected operand has a partner).  Counter-models are replayed in the real DuckDB.
+  * BOUNDED tier (checks/_e2echeck.py / _programs.py, unchanged): the elementwise program family executed on the real engine
+    (API.run minus the text->AST prologue) over fixed small tables and compared with spec/vtlref.py.  Never counted as proved.
+"""
+import json
+import os
+import subprocess
 import sys
+import tempfile
+import time
 from pathlib import Path
+
 sys.path.insert(0, str(Path(__file__).resolve().parent))
 import _e2echeck  # noqa: E402
+from _c01_main import TECHNIQUE  # noqa: E402
 from vc import core  # noqa: E402
+from vc.core import Obligation  # noqa: E402
+
+MIN_PROOF_OBLIGATIONS = 150
+
+
+def main() -> None:
+    t0 = time.time()
+    fd, out = tempfile.mkstemp(prefix="c01_proof_", suffix=".json")
+    os.close(fd)
+    proc = subprocess.Popen([sys.executable, str(Path(__file__).resolve().parent / "_c01_main.py"), "--out", out],
+                            stdout=subprocess.PIPE, stderr=subprocess.STDOUT, text=True)
+
+    def attach(chk, _stats) -> None:
+        try:
+            log, _ = proc.communicate(timeout=1500)
+        except subprocess.TimeoutExpired:
+            proc.kill()
+            log = "timeout"
+        chk.t0 = t0
+        chk.level = "proof"
+        chk.technique = TECHNIQUE
+        try:
+            payload = json.loads(Path(out).read_text() or "{}")
+        except (OSError, ValueError):
+            payload = {}
+        finally:
+            try:
+                os.unlink(out)
+            except OSError:
+                pass
+        if not payload:
+            chk.fault(f"proof tier produced no result (exit {proc.returncode}): {str(log)[-400:]}")
+            return
+        proof = [Obligation(**d) for d in payload["obligations"]]
+        chk.obs = proof + chk.obs            # proof obligations first, the bounded family after them
+        for a in payload["assumptions"]:
+            chk.assume(a)
+        for t in payload["trusted"]:
+            chk.trust(t)
+        chk.functions.update(payload["functions"])
+        for f in payload["faults"]:
+            chk.fault(f)
+        chk.extra.update(payload["extra"])
+        n_proof = len([o for o in proof if not o.bounded])
+        chk.extra["proof_obligations"] = n_proof
+        chk.samples = [o.to_json() for o in proof if o.status == core.REFUTED][:2] + [o.to_json() for o in proof[:3]] + chk.samples
+        if n_proof < MIN_PROOF_OBLIGATIONS:
+            chk.fault(f"only {n_proof} proof obligations generated, floor is {MIN_PROOF_OBLIGATIONS} (vacuity guard)")
+        chk.notes.append("proof tier = value layer of every in-scope registry entry / helper / visitor scalar path + row-level "
+                         "contracts for the listed small dataset programs; the dataset layer as a whole (arbitrary nesting, "
+                         "clauses, measure renaming through nested expressions) stays with the bounded tier")
+
+    _e2echeck.run_family(
+        "C01", "elementwise", TECHNIQUE,
+        "src/vtlengine/duckdb_transpiler/Transpiler/__init__.py:SQLTranspiler.visit_BinOp/_build_ds_ds_binary/_apply_measures",
+        {"family": "elementwise", "tables": "see checks/_programs.py", "depth": "quick: <= 2 (sampled 3 in thorough)"},
+        post_hook=attach)
+
 
 if __name__ == "__main__":
-    core.main_guard("C01", lambda: _e2echeck.run_family(
-        "C01", "elementwise",
-        "postcondition 'result = VTL denotation' checked on a bounded enumeration of programs x fixed tables on the real "
-        "engine and the real DuckDB (bounded stand-in)",
-        "src/vtlengine/duckdb_transpiler/Transpiler/__init__.py:SQLTranspiler.visit_BinOp/_build_ds_ds_binary/_apply_measures",
-        {"family": "elementwise", "tables": "see checks/_programs.py", "depth": "quick: <= 2 (sampled 3 in thorough)"}))
+    core.main_guard("C01", main)
